@@ -41,6 +41,8 @@ type Thread struct {
 	Parked  bool // parked at a yield point inside a call
 	Point   int
 	Running bool // a call is in progress
+	Job     bool // adopted background goroutine
+	Name    string
 }
 
 type Controller struct {
@@ -50,10 +52,14 @@ type Controller struct {
 	// Steer decides whether a yield (point, obj) from a registered thread is a scheduling point.
 	Steer   func(point int, obj uintptr) bool
 	Timeout time.Duration
+	// Adopt decides whether an unregistered goroutine (a background worker) arriving at this point becomes a
+	// new logical thread (a "job"); adopted threads are announced on Arrivals.
+	Adopt    func(point int, obj uintptr) bool
+	Arrivals chan *Thread
 }
 
 func NewController() *Controller {
-	return &Controller{byGoid: map[int64]*Thread{}, Timeout: 20 * time.Second}
+	return &Controller{byGoid: map[int64]*Thread{}, Timeout: 20 * time.Second, Arrivals: make(chan *Thread, 1024)}
 }
 
 // AddThread creates a logical thread (a goroutine waiting for calls).
@@ -99,14 +105,44 @@ func (c *Controller) Hook(point int, obj uintptr) {
 	if c.Steer != nil && !c.Steer(point, obj) {
 		return
 	}
+	g := Goid()
 	c.mu.Lock()
-	t := c.byGoid[Goid()]
+	t := c.byGoid[g]
 	c.mu.Unlock()
 	if t == nil {
-		return // not a logical thread: runs freely
+		if c.Adopt == nil || !c.Adopt(point, obj) {
+			return // not a logical thread: runs freely
+		}
+		t = &Thread{ID: -1, goid: g, ev: make(chan Event, 1), resume: make(chan struct{}), Running: true, Parked: true, Point: point, Job: true}
+		c.mu.Lock()
+		c.byGoid[g] = t
+		c.mu.Unlock()
+		c.Arrivals <- t
+		<-t.resume
+		return
 	}
 	t.ev <- Event{Point: point}
 	<-t.resume
+}
+
+// Detach lets a parked job goroutine run on unsteered (its job is over) and forgets it.
+func (c *Controller) Detach(t *Thread) {
+	c.mu.Lock()
+	delete(c.byGoid, t.goid)
+	c.mu.Unlock()
+	t.Running = false
+	t.Parked = false
+	t.resume <- struct{}{}
+}
+
+// WaitArrival waits for the next adopted job.
+func (c *Controller) WaitArrival() (*Thread, error) {
+	select {
+	case t := <-c.Arrivals:
+		return t, nil
+	case <-time.After(c.Timeout):
+		return nil, fmt.Errorf("hang: an expected background job did not arrive within %v", c.Timeout)
+	}
 }
 
 func (c *Controller) wait(t *Thread) (Event, error) {
